@@ -103,6 +103,26 @@ S cos_6(const S & x2)
   }
 }
 
+/**
+ * @brief Coefficient of ad^2 in the inverse of the exponential Jacobians,
+ * \f$ 1 / x^2 - (1 + \cos x) / (2 x \sin x) = 1 / x^2 - \cot(x / 2) / (2 x) \f$.
+ *
+ * The half-angle form has no cancellation in 1 + cos x (and no division by sin x) as x -> pi;
+ * for small x the difference of the two O(1/x^2) terms is replaced by its Taylor expansion.
+ */
+template<typename S>
+S dexpinv_coef(const S & x2)
+{
+  using std::cos, std::sin, std::sqrt;
+
+  if (x2 > S(std::is_same_v<S, float> ? 1.2 : 2e-2)) {
+    const S x = sqrt(x2);
+    return S(1) / x2 - cos(x / S(2)) / (S(2) * x * sin(x / S(2)));
+  } else {
+    return S(1) / S(12) + x2 * (S(1) / S(720) + x2 * (S(1) / S(30240) + x2 * (S(1) / S(1209600) + x2 / S(47900160))));
+  }
+}
+
 }  // namespace detail
 
 SMOOTH_END_NAMESPACE
